@@ -1178,12 +1178,16 @@ class C05(Prop):
             if cur.trades != cur.xtrades:
                 yield (k, "log-holds-the-executed-trades-in-order", f"broker log {[(x['sym'], x['side'], fdec(x['qty'])) for x in cur.trades][-4:]} vs exchange log {[(x['sym'], x['side'], fdec(x['qty'])) for x in cur.xtrades][-4:]}")
                 return
-            net = {}
+            net, gross = {}, {}     # gross: the quantities that were added and subtracted; the 1e-6 is relative to them
             for x in cur.trades:
                 net[x["sym"]] = net.get(x["sym"], Fraction(0)) + (fr(x["qty"]) if x["side"] == "B" else -fr(x["qty"]))
+                gross[x["sym"]] = gross.get(x["sym"], 0.0) + abs(fdec(x["qty"]))
+            for o in cur.xb + cur.xk:
+                gross[o["sym"]] = gross.get(o["sym"], 0.0) + abs(fdec(o["sh"]))
+            sc = lambda sym: max(1.0, gross.get(sym, 0.0))
             for sym in set(net) | set(cur.hold):
                 have = fr(cur.hold[sym]) if sym in cur.hold else Fraction(0)
-                if not close(have, net.get(sym, 0), tol, 1.0):
+                if not close(have, net.get(sym, 0), tol, sc(sym)):
                     yield (k, "holdings-are-bought-minus-sold", f"{sym}: holdings {float(have)}, executed net {float(net.get(sym, 0))}")
                     return
             if any(fdec(v) == 0.0 for v in cur.hold.values()):
@@ -1194,7 +1198,7 @@ class C05(Prop):
                 out[o["sym"]] = out.get(o["sym"], Fraction(0)) + (-fr(o["sh"]) if is_sell(o["typ"]) else fr(o["sh"]))
             for sym in set(out) | set(cur.pend):
                 have = fr(cur.pend[sym]) if sym in cur.pend else Fraction(0)
-                if not close(have, out.get(sym, 0), tol, 1.0):
+                if not close(have, out.get(sym, 0), tol, sc(sym)):
                     yield (k, "pending-is-outstanding-exposure", f"{sym}: pending {float(have)}, orders still at the exchange {float(out.get(sym, 0))}")
                     return
             if not cur.xb and not cur.xk and cur.pend and stream.flavour == "whole":
@@ -1202,7 +1206,7 @@ class C05(Prop):
                 return
             for sym in set(cur.hold) | set(cur.pend) | set(cur.hp):
                 s_ = (fr(cur.hold[sym]) if sym in cur.hold else 0) + (fr(cur.pend[sym]) if sym in cur.pend else 0)
-                if sym not in cur.hp or not close(fr(cur.hp[sym]), s_, tol, 1.0):
+                if sym not in cur.hp or not close(fr(cur.hp[sym]), s_, tol, sc(sym)):
                     yield (k, "holdings-with-pending-is-sum", f"{sym}: {cur.hp.get(sym)} vs {float(s_)}")
                     return
 
